@@ -67,7 +67,7 @@ def props():
                 if k in cv:
                     bits.append("%s %s" % (cv[k], lab))
             mdl = cv.get("model") or cv.get("crash_model")
-            if mdl:
+            if isinstance(mdl, dict) and mdl.get("paths_replayed_into_real_engine") is not None:
                 bits.append("model paths replayed into the real engine: %s (drift %s)" % (mdl.get("paths_replayed_into_real_engine"), mdl.get("paths_with_drift")))
             cov = "; ".join(bits) + " (%s tier, %.0f s)" % (e.get("tier"), e.get("wall_s", 0))
         out.append("| %s | %s | %s | %s |" % (pid, c.get("level_claimed", {}).get("category", ""), short(c.get("technique", ""), 240), cov))
